@@ -461,7 +461,7 @@ class Gen:
         cands = [d for d in range(3) if ARITY[d] == nparams]
         if cands and (depth <= 0 or r.random() < 0.35):
             return ("dist", r.choice(cands))
-        return self.fn(["S"] * nparams, depth - 1, ret="S", addrs=addrs)
+        return self.fn(["S"] * nparams, depth, ret="S", addrs=addrs)
 
     def fn(self, param_types, depth, ret="S", addrs=None, ncalls=None):
         r = self.rng
@@ -473,7 +473,7 @@ class Gen:
             kinds = ["dist"] * 3
             if depth > 0:
                 if "fn" in self.allow:
-                    kinds.append("fn")
+                    kinds += ["fn"] * 2
                 if "vmap" in self.allow:
                     kinds += ["vmap"] * 2
                 if "scan" in self.allow and "V" in env:
